@@ -1,3 +1,4 @@
+mod families;
 mod io;
 mod mqtt;
 mod opts;
@@ -121,6 +122,15 @@ fn main() {
         }
         "walk" => cmd_walk(&a),
         "script" => cmd_script(&a),
+        "wrap" => families::wrap(&a),
+        "size" => families::size(&a),
+        "quotafill" => families::quotafill(&a),
+        "q2seq" => families::q2seq(&a),
+        "first" => families::first(&a),
+        "resume" => families::resume(&a),
+        "chunk" => families::chunk(&a),
+        "fuzz" => families::fuzz(&a),
+        "disccmp" => families::disccmp(&a),
         _ => {
             eprintln!("usage: pvh <smoke|walk|script> [--key value ...]");
             2
